@@ -1,45 +1,276 @@
+(* C17 - passport deposits are conserved: fee to sentinel, remainder only to requester.  Property theorems only. *)
 From DZ Require Import Base Keys Merkle BurnRate Swap_Ring State World Passport Exec Lemmas_Passport.
 
-(* ------------------------------------------------------------------------------------------------------------- *)
-(* 10. instruction frames and transactions (Exec.v)                                                                *)
-(* ------------------------------------------------------------------------------------------------------------- *)
-Definition pp_cx (ms : list meta) (h : N) (sib : option sibling) : ctx :=
-  {| cx_prog := KPassport; cx_metas := ms; cx_height := h; cx_sibling := sib |}.
+(* An access request leaves the account unique to the service key (KPpRequest svc) owned by the program, of AccessRequest size,
+   holding max(current, rent minimum + deposit) lamports and remembering service key, requester (account 1) and the fee in force;
+   the shortfall is taken from the requester, who must have signed when it is non-zero, and every other account is unchanged.
+   Processor level: every world, every context. *)
+Theorem C17_request_access_spec :
+  forall cx W mode W',
+  pp_request_access cx W mode = Ok W' ->
+  let svc := access_mode_service mode in
+  let rk := KPpRequest svc in
+  let payer := nthk (cx_metas cx) 1 in
+  exists c, is_pp_config W (nthk (cx_metas cx) 0) c /\
+    let short := lam_request c - lamports (get W rk) in
+    short <= lamports (get W payer) /\ (short <> 0 -> payer <> rk /\ is_signer (cx_metas cx) payer = true) /\
+    now W' = now W /\
+    forall k, get W' k =
+      if key_eqb k rk then
+        {| lamports := N.max (lamports (get W rk)) (lam_request c); owner := KPassport; alen := LEN_ACCESS_REQ;
+           data := DAccessReq {| ar_service := svc; ar_beneficiary := payer; ar_fee := pc_fee c; ar_mode := mode |} |}
+      else if key_eqb k payer then get W k <| lamports := lamports (get W k) - short |>
+      else get W k.
+Proof. exact pp_request_access_spec. Qed.
+Check C17_request_access_spec :
+  forall cx W mode W',
+  pp_request_access cx W mode = Ok W' ->
+  let svc := access_mode_service mode in
+  let rk := KPpRequest svc in
+  let payer := nthk (cx_metas cx) 1 in
+  exists c, is_pp_config W (nthk (cx_metas cx) 0) c /\
+    let short := lam_request c - lamports (get W rk) in
+    short <= lamports (get W payer) /\ (short <> 0 -> payer <> rk /\ is_signer (cx_metas cx) payer = true) /\
+    now W' = now W /\
+    forall k, get W' k =
+      if key_eqb k rk then
+        {| lamports := N.max (lamports (get W rk)) (lam_request c); owner := KPassport; alen := LEN_ACCESS_REQ;
+           data := DAccessReq {| ar_service := svc; ar_beneficiary := payer; ar_fee := pc_fee c; ar_mode := mode |} |}
+      else if key_eqb k payer then get W k <| lamports := lamports (get W k) - short |>
+      else get W k.
+Print Assumptions C17_request_access_spec.
 
-Lemma total_is_lamports_sum W ks : total W ks = lamports_sum W ks.
-Proof. reflexivity. Qed.
-Lemma existsb_key_in k l : existsb (key_eqb k) l = true <-> In k l.
-Proof. rewrite existsb_exists. split; [intros (x & Hi & He); apply key_eqb_eq in He; subst; assumption|].
-  intros Hi. exists k. rewrite key_eqb_refl. auto. Qed.
-Lemma dedup_keys_in l k : In k (dedup_keys l) <-> In k l.
-Proof.
-  induction l as [|a tl IH]; cbn [dedup_keys]; [tauto|]. destruct (existsb (key_eqb a) tl) eqn:E.
-  - rewrite IH. cbn. apply existsb_key_in in E. split; [auto|]. intros [<-|H]; assumption.
-  - cbn. rewrite IH. tauto.
-Qed.
-Lemma dedup_keys_nodup l : NoDup (dedup_keys l).
-Proof.
-  induction l as [|a tl IH]; cbn [dedup_keys]; [constructor|]. destruct (existsb (key_eqb a) tl) eqn:E; [assumption|].
-  constructor; [|assumption]. rewrite dedup_keys_in. intros Hi. apply existsb_key_in in Hi. congruence.
-Qed.
-Lemma nthk_in ms i : (i < length ms)%nat -> In (nthk ms i) (dedup_keys (keys_of ms)).
-Proof. intros H. apply dedup_keys_in. unfold nthk. apply nth_In. unfold keys_of. rewrite map_length. assumption. Qed.
+(* The same for a whole transaction (after the end-of-transaction purge), with the guards. *)
+Theorem C17_request_access_tx :
+  forall W t W' mode ms,
+  exec_tx W t = (W', true) -> pp_tx t (PRequestAccess mode) ms ->
+  let svc := access_mode_service mode in let rk := KPpRequest svc in let payer := nthk ms 1 in
+  exists c, is_pp_config W (nthk ms 0) c /\ nthk ms 2 = rk /\
+    pc_paused c = false /\ pc_request_paused c = false /\ pc_deposit c <> 0 /\ svc <> default_key /\
+    match mode with AMValidator _ => True | AMValidatorWithBackups _ b => b <> [] /\ N.of_nat (length b) <= pc_backup_limit c end /\
+    alen (get W rk) = 0 /\ owner (get W rk) = KSystem /\
+    let short := lam_request c - lamports (get W rk) in
+    (short <> 0 -> In payer (tx_signers t) /\ payer <> rk) /\
+    get W' rk = {| lamports := N.max (lamports (get W rk)) (lam_request c); owner := KPassport; alen := LEN_ACCESS_REQ;
+                   data := DAccessReq {| ar_service := svc; ar_beneficiary := payer; ar_fee := pc_fee c; ar_mode := mode |} |} /\
+    (payer <> rk -> lamports (get W' payer) = lamports (get W payer) - short /\ short <= lamports (get W payer)) /\
+    (forall k, k <> rk -> k <> payer -> lamports (get W k) <> 0 -> get W' k = get W k).
+Proof. exact tx_request_access. Qed.
+Check C17_request_access_tx :
+  forall W t W' mode ms,
+  exec_tx W t = (W', true) -> pp_tx t (PRequestAccess mode) ms ->
+  let svc := access_mode_service mode in let rk := KPpRequest svc in let payer := nthk ms 1 in
+  exists c, is_pp_config W (nthk ms 0) c /\ nthk ms 2 = rk /\
+    pc_paused c = false /\ pc_request_paused c = false /\ pc_deposit c <> 0 /\ svc <> default_key /\
+    match mode with AMValidator _ => True | AMValidatorWithBackups _ b => b <> [] /\ N.of_nat (length b) <= pc_backup_limit c end /\
+    alen (get W rk) = 0 /\ owner (get W rk) = KSystem /\
+    let short := lam_request c - lamports (get W rk) in
+    (short <> 0 -> In payer (tx_signers t) /\ payer <> rk) /\
+    get W' rk = {| lamports := N.max (lamports (get W rk)) (lam_request c); owner := KPassport; alen := LEN_ACCESS_REQ;
+                   data := DAccessReq {| ar_service := svc; ar_beneficiary := payer; ar_fee := pc_fee c; ar_mode := mode |} |} /\
+    (payer <> rk -> lamports (get W' payer) = lamports (get W payer) - short /\ short <= lamports (get W payer)) /\
+    (forall k, k <> rk -> k <> payer -> lamports (get W k) <> 0 -> get W' k = get W k).
+Print Assumptions C17_request_access_tx.
 
-(* a passport instruction frame = the processor + the runtime's balance check over the instruction's accounts *)
-Lemma exec_data_passport ix ms h sib W W' :
-  exec_data KPassport (IxPassport ix) ms h sib W = Ok W' ->
-  pp_process (pp_cx ms h sib) W ix = Ok W' /\
-  total W' (dedup_keys (keys_of ms)) = total W (dedup_keys (keys_of ms)).
-Proof.
-  cbn [exec_data]. intros H. inv_all. ok_inj H. split; [exact Hm|]. unfold balanced in Hm0. cbn zeta in Hm0. keq.
-  rewrite !total_is_lamports_sum. congruence.
-Qed.
-Lemma exec_data_passport_only prog ix ms h sib W W' :
-  exec_data prog (IxPassport ix) ms h sib W = Ok W' -> prog = KPassport.
-Proof. destruct prog; cbn [exec_data bind]; intros H; try discriminate H. reflexivity. Qed.
+(* A service key has at most one pending request: once the request address is allocated or assigned (in particular while it
+   holds an AccessRequest), RequestAccess for that service key fails; distinct service keys have distinct addresses. *)
+Theorem C17_one_pending_per_service_key :
+  forall cx W mode,
+  alen (get W (KPpRequest (access_mode_service mode))) <> 0 \/ owner (get W (KPpRequest (access_mode_service mode))) <> KSystem ->
+  is_ok (pp_request_access cx W mode) = false.
+Proof. exact one_pending_per_service_key. Qed.
+Check C17_one_pending_per_service_key :
+  forall cx W mode,
+  alen (get W (KPpRequest (access_mode_service mode))) <> 0 \/ owner (get W (KPpRequest (access_mode_service mode))) <> KSystem ->
+  is_ok (pp_request_access cx W mode) = false.
+Print Assumptions C17_one_pending_per_service_key.
 
-(* GrantAccess as an instruction frame: no saturation, exact amounts, conservation, request account emptied *)
-Lemma exec_grant_access ms h sib W W' :
+
+Theorem C17_one_pending_per_service_key_request :
+  forall cx W mode r,
+  is_pp_request W (KPpRequest (access_mode_service mode)) r -> is_ok (pp_request_access cx W mode) = false.
+Proof. exact one_pending_per_service_key_request. Qed.
+Check C17_one_pending_per_service_key_request :
+  forall cx W mode r,
+  is_pp_request W (KPpRequest (access_mode_service mode)) r -> is_ok (pp_request_access cx W mode) = false.
+Print Assumptions C17_one_pending_per_service_key_request.
+
+
+Theorem C17_request_address_injective :
+  forall s1 s2,
+ KPpRequest s1 = KPpRequest s2 -> s1 = s2.
+Proof. exact request_address_injective. Qed.
+Check C17_request_address_injective :
+  forall s1 s2,
+ KPpRequest s1 = KPpRequest s2 -> s1 = s2.
+Print Assumptions C17_request_address_injective.
+
+(* GrantAccess, processor level: request account zeroed, sentinel + remembered fee, remembered requester + (balance - fee)
+   (N subtraction saturates), additively so that sentinel = requester is covered; neither may alias the request account;
+   owners, sizes, data and every other account unchanged. *)
+Theorem C17_grant_access_spec :
+  forall cx W W',
+  pp_grant_access cx W = Ok W' ->
+  let rk := nthk (cx_metas cx) 2 in
+  exists c r, is_pp_config W (nthk (cx_metas cx) 0) c /\ is_pp_request W rk r /\
+    nthk (cx_metas cx) 1 = pc_sentinel c /\ nthk (cx_metas cx) 3 = ar_beneficiary r /\
+    pc_sentinel c <> rk /\ ar_beneficiary r <> rk /\
+    let bal := lamports (get W rk) in
+    now W' = now W /\
+    forall k, get W' k = get W k <| lamports :=
+        (if key_eqb k rk then 0 else lamports (get W k)) + (if key_eqb k (pc_sentinel c) then ar_fee r else 0)
+        + (if key_eqb k (ar_beneficiary r) then bal - ar_fee r else 0) |>.
+Proof. exact pp_grant_access_spec. Qed.
+Check C17_grant_access_spec :
+  forall cx W W',
+  pp_grant_access cx W = Ok W' ->
+  let rk := nthk (cx_metas cx) 2 in
+  exists c r, is_pp_config W (nthk (cx_metas cx) 0) c /\ is_pp_request W rk r /\
+    nthk (cx_metas cx) 1 = pc_sentinel c /\ nthk (cx_metas cx) 3 = ar_beneficiary r /\
+    pc_sentinel c <> rk /\ ar_beneficiary r <> rk /\
+    let bal := lamports (get W rk) in
+    now W' = now W /\
+    forall k, get W' k = get W k <| lamports :=
+        (if key_eqb k rk then 0 else lamports (get W k)) + (if key_eqb k (pc_sentinel c) then ar_fee r else 0)
+        + (if key_eqb k (ar_beneficiary r) then bal - ar_fee r else 0) |>.
+Print Assumptions C17_grant_access_spec.
+
+
+Theorem C17_grant_access_amounts :
+  forall cx W W',
+  pp_grant_access cx W = Ok W' ->
+  exists c r, is_pp_config W (nthk (cx_metas cx) 0) c /\ is_pp_request W (nthk (cx_metas cx) 2) r /\
+    let rk := nthk (cx_metas cx) 2 in let s := pc_sentinel c in let b := ar_beneficiary r in
+    let bal := lamports (get W rk) in let fee := ar_fee r in
+    s <> rk /\ b <> rk /\
+    lamports (get W' rk) = 0 /\
+    (s <> b -> lamports (get W' s) = lamports (get W s) + fee) /\
+    (s <> b -> lamports (get W' b) = lamports (get W b) + (bal - fee)) /\
+    (s = b -> lamports (get W' s) = lamports (get W s) + fee + (bal - fee)) /\
+    (forall k, k <> rk -> k <> s -> k <> b -> get W' k = get W k) /\
+    (forall k, owner (get W' k) = owner (get W k) /\ alen (get W' k) = alen (get W k) /\ data (get W' k) = data (get W k)).
+Proof. exact pp_grant_access_amounts. Qed.
+Check C17_grant_access_amounts :
+  forall cx W W',
+  pp_grant_access cx W = Ok W' ->
+  exists c r, is_pp_config W (nthk (cx_metas cx) 0) c /\ is_pp_request W (nthk (cx_metas cx) 2) r /\
+    let rk := nthk (cx_metas cx) 2 in let s := pc_sentinel c in let b := ar_beneficiary r in
+    let bal := lamports (get W rk) in let fee := ar_fee r in
+    s <> rk /\ b <> rk /\
+    lamports (get W' rk) = 0 /\
+    (s <> b -> lamports (get W' s) = lamports (get W s) + fee) /\
+    (s <> b -> lamports (get W' b) = lamports (get W b) + (bal - fee)) /\
+    (s = b -> lamports (get W' s) = lamports (get W s) + fee + (bal - fee)) /\
+    (forall k, k <> rk -> k <> s -> k <> b -> get W' k = get W k) /\
+    (forall k, owner (get W' k) = owner (get W k) /\ alen (get W' k) = alen (get W k) /\ data (get W' k) = data (get W k)).
+Print Assumptions C17_grant_access_amounts.
+
+(* DenyAccess, processor level: request account zeroed, sentinel + the entire balance, nobody else changes. *)
+Theorem C17_deny_access_spec :
+  forall cx W W',
+  pp_deny_access cx W = Ok W' ->
+  let rk := nthk (cx_metas cx) 2 in
+  exists c r, is_pp_config W (nthk (cx_metas cx) 0) c /\ is_pp_request W rk r /\ nthk (cx_metas cx) 1 = pc_sentinel c /\
+    pc_sentinel c <> rk /\ now W' = now W /\
+    forall k, get W' k = get W k <| lamports :=
+        (if key_eqb k rk then 0 else lamports (get W k)) + (if key_eqb k (pc_sentinel c) then lamports (get W rk) else 0) |>.
+Proof. exact pp_deny_access_spec. Qed.
+Check C17_deny_access_spec :
+  forall cx W W',
+  pp_deny_access cx W = Ok W' ->
+  let rk := nthk (cx_metas cx) 2 in
+  exists c r, is_pp_config W (nthk (cx_metas cx) 0) c /\ is_pp_request W rk r /\ nthk (cx_metas cx) 1 = pc_sentinel c /\
+    pc_sentinel c <> rk /\ now W' = now W /\
+    forall k, get W' k = get W k <| lamports :=
+        (if key_eqb k rk then 0 else lamports (get W k)) + (if key_eqb k (pc_sentinel c) then lamports (get W rk) else 0) |>.
+Print Assumptions C17_deny_access_spec.
+
+
+Theorem C17_deny_access_amounts :
+  forall cx W W',
+  pp_deny_access cx W = Ok W' ->
+  exists c r, is_pp_config W (nthk (cx_metas cx) 0) c /\ is_pp_request W (nthk (cx_metas cx) 2) r /\
+    let rk := nthk (cx_metas cx) 2 in let s := pc_sentinel c in
+    s <> rk /\ lamports (get W' rk) = 0 /\ lamports (get W' s) = lamports (get W s) + lamports (get W rk) /\
+    (forall k, k <> rk -> k <> s -> get W' k = get W k) /\
+    (forall k, owner (get W' k) = owner (get W k) /\ alen (get W' k) = alen (get W k) /\ data (get W' k) = data (get W k)).
+Proof. exact pp_deny_access_amounts. Qed.
+Check C17_deny_access_amounts :
+  forall cx W W',
+  pp_deny_access cx W = Ok W' ->
+  exists c r, is_pp_config W (nthk (cx_metas cx) 0) c /\ is_pp_request W (nthk (cx_metas cx) 2) r /\
+    let rk := nthk (cx_metas cx) 2 in let s := pc_sentinel c in
+    s <> rk /\ lamports (get W' rk) = 0 /\ lamports (get W' s) = lamports (get W s) + lamports (get W rk) /\
+    (forall k, k <> rk -> k <> s -> get W' k = get W k) /\
+    (forall k, owner (get W' k) = owner (get W k) /\ alen (get W' k) = alen (get W k) /\ data (get W' k) = data (get W k)).
+Print Assumptions C17_deny_access_amounts.
+
+(* Lamports are conserved over any duplicate-free key set containing the accounts involved.  For GrantAccess the processor
+   alone conserves iff the remembered fee does not exceed the balance (exact accounting below); the instruction frame and
+   the transaction enforce it (C17_grant_access_tx). *)
+Theorem C17_request_access_conserves :
+  forall cx W mode W' ks,
+  pp_request_access cx W mode = Ok W' -> NoDup ks ->
+  In (nthk (cx_metas cx) 1) ks -> In (KPpRequest (access_mode_service mode)) ks -> total W' ks = total W ks.
+Proof. exact pp_request_access_conserves. Qed.
+Check C17_request_access_conserves :
+  forall cx W mode W' ks,
+  pp_request_access cx W mode = Ok W' -> NoDup ks ->
+  In (nthk (cx_metas cx) 1) ks -> In (KPpRequest (access_mode_service mode)) ks -> total W' ks = total W ks.
+Print Assumptions C17_request_access_conserves.
+
+
+Theorem C17_grant_access_accounting :
+  forall cx W W' ks,
+  pp_grant_access cx W = Ok W' -> NoDup ks ->
+  exists c r, is_pp_config W (nthk (cx_metas cx) 0) c /\ is_pp_request W (nthk (cx_metas cx) 2) r /\
+    (In (nthk (cx_metas cx) 2) ks -> In (pc_sentinel c) ks -> In (ar_beneficiary r) ks ->
+     total W' ks + lamports (get W (nthk (cx_metas cx) 2)) =
+     total W ks + ar_fee r + (lamports (get W (nthk (cx_metas cx) 2)) - ar_fee r)).
+Proof. exact pp_grant_access_accounting. Qed.
+Check C17_grant_access_accounting :
+  forall cx W W' ks,
+  pp_grant_access cx W = Ok W' -> NoDup ks ->
+  exists c r, is_pp_config W (nthk (cx_metas cx) 0) c /\ is_pp_request W (nthk (cx_metas cx) 2) r /\
+    (In (nthk (cx_metas cx) 2) ks -> In (pc_sentinel c) ks -> In (ar_beneficiary r) ks ->
+     total W' ks + lamports (get W (nthk (cx_metas cx) 2)) =
+     total W ks + ar_fee r + (lamports (get W (nthk (cx_metas cx) 2)) - ar_fee r)).
+Print Assumptions C17_grant_access_accounting.
+
+
+Theorem C17_grant_access_conserves :
+  forall cx W W' ks,
+  pp_grant_access cx W = Ok W' -> NoDup ks ->
+  exists c r, is_pp_config W (nthk (cx_metas cx) 0) c /\ is_pp_request W (nthk (cx_metas cx) 2) r /\
+    (In (nthk (cx_metas cx) 2) ks -> In (pc_sentinel c) ks -> In (ar_beneficiary r) ks ->
+     ar_fee r <= lamports (get W (nthk (cx_metas cx) 2)) -> total W' ks = total W ks).
+Proof. exact pp_grant_access_conserves. Qed.
+Check C17_grant_access_conserves :
+  forall cx W W' ks,
+  pp_grant_access cx W = Ok W' -> NoDup ks ->
+  exists c r, is_pp_config W (nthk (cx_metas cx) 0) c /\ is_pp_request W (nthk (cx_metas cx) 2) r /\
+    (In (nthk (cx_metas cx) 2) ks -> In (pc_sentinel c) ks -> In (ar_beneficiary r) ks ->
+     ar_fee r <= lamports (get W (nthk (cx_metas cx) 2)) -> total W' ks = total W ks).
+Print Assumptions C17_grant_access_conserves.
+
+
+Theorem C17_deny_access_conserves :
+  forall cx W W' ks,
+  pp_deny_access cx W = Ok W' -> NoDup ks ->
+  exists c, is_pp_config W (nthk (cx_metas cx) 0) c /\
+    (In (nthk (cx_metas cx) 2) ks -> In (pc_sentinel c) ks -> total W' ks = total W ks).
+Proof. exact pp_deny_access_conserves. Qed.
+Check C17_deny_access_conserves :
+  forall cx W W' ks,
+  pp_deny_access cx W = Ok W' -> NoDup ks ->
+  exists c, is_pp_config W (nthk (cx_metas cx) 0) c /\
+    (In (nthk (cx_metas cx) 2) ks -> In (pc_sentinel c) ks -> total W' ks = total W ks).
+Print Assumptions C17_deny_access_conserves.
+
+(* GrantAccess as an instruction frame (processor + the runtime's balance check), any stack height, any position in any
+   transaction: the fee never exceeds the balance, the amounts are exact. *)
+Theorem C17_grant_access_frame :
+  forall ms h sib W W',
   exec_data KPassport (IxPassport PGrantAccess) ms h sib W = Ok W' ->
   exists c r, is_pp_config W (nthk ms 0) c /\ is_pp_request W (nthk ms 2) r /\
     let rk := nthk ms 2 in let s := pc_sentinel c in let b := ar_beneficiary r in
@@ -51,97 +282,189 @@ Lemma exec_grant_access ms h sib W W' :
     (s = b -> lamports (get W' s) = lamports (get W s) + bal) /\
     (forall k, k <> rk -> k <> s -> k <> b -> get W' k = get W k) /\
     (forall k, owner (get W' k) = owner (get W k) /\ alen (get W' k) = alen (get W k) /\ data (get W' k) = data (get W k)).
-Proof.
-  intros H. apply exec_data_passport in H. destruct H as (H & Hbal). cbn [pp_process] in H.
-  assert (Hok := pp_grant_access_ok _ _ _ H). assert (Hauth := pp_grant_access_authority _ _ _ H).
-  assert (Hacc := pp_grant_access_accounting _ _ _ _ H (dedup_keys_nodup (keys_of ms))).
-  apply pp_grant_access_amounts in H. cbn [pp_cx cx_metas] in *. cbn zeta in *.
-  destruct H as (c & r & Hc & Hr & Hn1 & Hn3 & Hz & Hs & Hb & Hsb & Hfr & Hmeta).
-  destruct Hok as (m0 & m1 & m2 & m3 & rest & c0 & r0 & Hms & _ & Hd0 & _ & Hk0 & Hp0 & _ & Hdr0 & Hb0 & _).
-  destruct Hauth as (c1 & (_ & Hd1) & _ & Hsig). destruct Hacc as (c2 & r2 & (_ & Hd2) & (_ & Hdr2) & Hacc).
-  destruct Hc as (Hco & Hcd). destruct Hr as (Hro & Hrd).
-  assert (c0 = c) by (rewrite Hms, nthk_0 in Hcd; congruence). assert (c1 = c) by congruence. assert (c2 = c) by congruence.
-  assert (r0 = r) by (rewrite Hms, nthk_2 in Hrd; congruence). assert (r2 = r) by congruence. subst c0 c1 c2 r0 r2.
-  assert (H1 : nthk ms 1 = pc_sentinel c) by (rewrite Hms, nthk_1; assumption).
-  assert (H3 : nthk ms 3 = ar_beneficiary r) by (rewrite Hms, nthk_3; assumption).
-  assert (Hlen : (4 <= length ms)%nat) by (rewrite Hms; cbn; lia).
-  assert (Hfee : ar_fee r <= lamports (get W (nthk ms 2))).
-  { specialize (Hacc (nthk_in ms 2 ltac:(lia))). rewrite <- H1, <- H3 in Hacc.
-    specialize (Hacc (nthk_in ms 1 ltac:(lia)) (nthk_in ms 3 ltac:(lia))). lia. }
-  exists c, r. split; [split; assumption|]. split; [split; assumption|].
-  repeat (split; [assumption|]). split; [auto|]. split; [|split; assumption].
-  intros E. rewrite (Hsb E). lia.
-Qed.
+Proof. exact exec_grant_access. Qed.
+Check C17_grant_access_frame :
+  forall ms h sib W W',
+  exec_data KPassport (IxPassport PGrantAccess) ms h sib W = Ok W' ->
+  exists c r, is_pp_config W (nthk ms 0) c /\ is_pp_request W (nthk ms 2) r /\
+    let rk := nthk ms 2 in let s := pc_sentinel c in let b := ar_beneficiary r in
+    let bal := lamports (get W rk) in let fee := ar_fee r in
+    nthk ms 1 = s /\ nthk ms 3 = b /\ is_signer ms s = true /\ pc_paused c = false /\
+    fee <= bal /\ s <> rk /\ b <> rk /\
+    lamports (get W' rk) = 0 /\
+    (s <> b -> lamports (get W' s) = lamports (get W s) + fee /\ lamports (get W' b) = lamports (get W b) + (bal - fee)) /\
+    (s = b -> lamports (get W' s) = lamports (get W s) + bal) /\
+    (forall k, k <> rk -> k <> s -> k <> b -> get W' k = get W k) /\
+    (forall k, owner (get W' k) = owner (get W k) /\ alen (get W' k) = alen (get W k) /\ data (get W' k) = data (get W k)).
+Print Assumptions C17_grant_access_frame.
 
-Lemma exec_deny_access ms h sib W W' :
-  exec_data KPassport (IxPassport PDenyAccess) ms h sib W = Ok W' ->
+(* A successful GrantAccess transaction: the sentinel signed, is paid exactly the remembered fee, the remembered requester
+   receives the entire remainder, the request account is removed, nobody else changes, lamports are conserved. *)
+Theorem C17_grant_access_tx :
+  forall W t W' ms,
+  exec_tx W t = (W', true) -> pp_tx t PGrantAccess ms ->
+  exists c r, is_pp_config W (nthk ms 0) c /\ is_pp_request W (nthk ms 2) r /\
+    let rk := nthk ms 2 in let s := pc_sentinel c in let b := ar_beneficiary r in
+    let bal := lamports (get W rk) in let fee := ar_fee r in
+    nthk ms 1 = s /\ nthk ms 3 = b /\ In s (tx_signers t) /\ pc_paused c = false /\ fee <= bal /\ s <> rk /\ b <> rk /\
+    get W' rk = empty_acct /\
+    (s <> b -> lamports (get W' s) = lamports (get W s) + fee /\ lamports (get W' b) = lamports (get W b) + (bal - fee)) /\
+    (s = b -> lamports (get W' s) = lamports (get W s) + bal) /\
+    (forall k, k <> rk -> k <> s -> k <> b -> lamports (get W k) <> 0 -> get W' k = get W k) /\
+    (forall ks, NoDup ks -> In rk ks -> In s ks -> In b ks -> total W' ks = total W ks).
+Proof. exact tx_grant_access. Qed.
+Check C17_grant_access_tx :
+  forall W t W' ms,
+  exec_tx W t = (W', true) -> pp_tx t PGrantAccess ms ->
+  exists c r, is_pp_config W (nthk ms 0) c /\ is_pp_request W (nthk ms 2) r /\
+    let rk := nthk ms 2 in let s := pc_sentinel c in let b := ar_beneficiary r in
+    let bal := lamports (get W rk) in let fee := ar_fee r in
+    nthk ms 1 = s /\ nthk ms 3 = b /\ In s (tx_signers t) /\ pc_paused c = false /\ fee <= bal /\ s <> rk /\ b <> rk /\
+    get W' rk = empty_acct /\
+    (s <> b -> lamports (get W' s) = lamports (get W s) + fee /\ lamports (get W' b) = lamports (get W b) + (bal - fee)) /\
+    (s = b -> lamports (get W' s) = lamports (get W s) + bal) /\
+    (forall k, k <> rk -> k <> s -> k <> b -> lamports (get W k) <> 0 -> get W' k = get W k) /\
+    (forall ks, NoDup ks -> In rk ks -> In s ks -> In b ks -> total W' ks = total W ks).
+Print Assumptions C17_grant_access_tx.
+
+(* A successful DenyAccess transaction: the sentinel signed and receives the entire balance; the request account is removed. *)
+Theorem C17_deny_access_tx :
+  forall W t W' ms,
+  exec_tx W t = (W', true) -> pp_tx t PDenyAccess ms ->
   exists c r, is_pp_config W (nthk ms 0) c /\ is_pp_request W (nthk ms 2) r /\
     let rk := nthk ms 2 in let s := pc_sentinel c in
-    nthk ms 1 = s /\ is_signer ms s = true /\ pc_paused c = false /\ s <> rk /\
-    lamports (get W' rk) = 0 /\ lamports (get W' s) = lamports (get W s) + lamports (get W rk) /\
-    (forall k, k <> rk -> k <> s -> get W' k = get W k) /\
-    (forall k, owner (get W' k) = owner (get W k) /\ alen (get W' k) = alen (get W k) /\ data (get W' k) = data (get W k)).
-Proof.
-  intros H. apply exec_data_passport in H. destruct H as (H & _). cbn [pp_process] in H.
-  assert (Hok := pp_deny_access_ok _ _ _ H). assert (Hauth := pp_deny_access_authority _ _ _ H).
-  apply pp_deny_access_amounts in H. cbn [pp_cx cx_metas] in *. cbn zeta in *.
-  destruct H as (c & r & Hc & Hr & Hn1 & Hz & Hs & Hfr & Hmeta).
-  destruct Hok as (m0 & m1 & m2 & rest & c0 & r0 & Hms & _ & Hd0 & _ & Hk0 & Hp0 & _).
-  destruct Hauth as (c1 & (_ & Hd1) & _ & Hsig). destruct Hc as (Hco & Hcd).
-  assert (c0 = c) by (rewrite Hms, nthk_0 in Hcd; congruence). assert (c1 = c) by congruence. subst c0 c1.
-  assert (H1 : nthk ms 1 = pc_sentinel c) by (rewrite Hms, nthk_1; assumption).
-  exists c, r. split; [split; assumption|]. split; [assumption|]. auto 10.
-Qed.
+    nthk ms 1 = s /\ In s (tx_signers t) /\ pc_paused c = false /\ s <> rk /\
+    get W' rk = empty_acct /\ lamports (get W' s) = lamports (get W s) + lamports (get W rk) /\
+    (forall k, k <> rk -> k <> s -> lamports (get W k) <> 0 -> get W' k = get W k).
+Proof. exact tx_deny_access. Qed.
+Check C17_deny_access_tx :
+  forall W t W' ms,
+  exec_tx W t = (W', true) -> pp_tx t PDenyAccess ms ->
+  exists c r, is_pp_config W (nthk ms 0) c /\ is_pp_request W (nthk ms 2) r /\
+    let rk := nthk ms 2 in let s := pc_sentinel c in
+    nthk ms 1 = s /\ In s (tx_signers t) /\ pc_paused c = false /\ s <> rk /\
+    get W' rk = empty_acct /\ lamports (get W' s) = lamports (get W s) + lamports (get W rk) /\
+    (forall k, k <> rk -> k <> s -> lamports (get W k) <> 0 -> get W' k = get W k).
+Print Assumptions C17_deny_access_tx.
 
-(* ---- transactions ---- *)
-Lemma tx_failed_unchanged W t W' : exec_tx W t = (W', false) -> W' = W.
-Proof.
-  unfold exec_tx. destruct (negb (tx_wf t)); [intros H; ok_inj H; reflexivity|].
-  destruct (exec_ixs t (tx_ixs t) None W); [destruct (rent_ok t W a)|]; intros H; ok_inj H; reflexivity.
-Qed.
-Lemma tx_success_inv W t W' :
-  exec_tx W t = (W', true) ->
-  tx_wf t = true /\ exists W1, exec_ixs t (tx_ixs t) None W = Ok W1 /\ rent_ok t W W1 = true /\ W' = purge W1.
-Proof.
-  unfold exec_tx. destruct (tx_wf t); cbn [negb]; [|discriminate]. destruct (exec_ixs t (tx_ixs t) None W) as [W1|]; [|discriminate].
-  destruct (rent_ok t W W1) eqn:E; [|discriminate]. intros H. ok_inj H. eauto.
-Qed.
-Lemma tx_single_inv W t W' i :
-  exec_tx W t = (W', true) -> tx_ixs t = [i] ->
-  tx_wf t = true /\ exists W1, exec_data (i_prog i) (i_data i) (effective t (i_metas i)) 1 None W = Ok W1 /\ W' = purge W1.
-Proof.
-  intros H Hi. apply tx_success_inv in H. destruct H as (Hwf & W1 & He & _ & ->). rewrite Hi in He. cbn [exec_ixs] in He.
-  inv_all. ok_inj He. eauto.
-Qed.
-Lemma lamports_purge W k : lamports (get (purge W) k) = lamports (get W k).
-Proof. rewrite get_purge. destruct (lamports (get W k) =? 0) eqn:E; [keq; rewrite E|]; reflexivity. Qed.
+(* Reconfiguration changes only the config account: a pending request keeps its remembered requester, fee and balance. *)
+Theorem C17_reconfigure_does_not_touch_pending :
+  forall cx W s W' k r,
+  pp_configure_program cx W s = Ok W' -> data (get W k) = DAccessReq r -> get W' k = get W k.
+Proof. exact reconfigure_does_not_touch_pending. Qed.
+Check C17_reconfigure_does_not_touch_pending :
+  forall cx W s W' k r,
+  pp_configure_program cx W s = Ok W' -> data (get W k) = DAccessReq r -> get W' k = get W k.
+Print Assumptions C17_reconfigure_does_not_touch_pending.
 
-(* message-level privileges *)
-Lemma nthk_effective t ms i : nthk (effective t ms) i = nthk ms i.
-Proof. unfold nthk, keys_of, effective. rewrite map_map. reflexivity. Qed.
-Lemma is_signer_effective t ms k : is_signer (effective t ms) k = true -> In k (tx_signers t).
-Proof.
-  intros H. apply is_signer_in in H. destruct H as (m & Hi & Hk & Hs). unfold effective in Hi. apply in_map_iff in Hi.
-  destruct Hi as (m' & <- & _). cbn in Hk, Hs. subst k. unfold msg_signer in Hs. apply existsb_key_in in Hs. exact Hs.
-Qed.
 
-(* C07 at instruction-frame level inside any transaction (any position, any world reached so far): a passport
-   instruction that needs an authority succeeds only if that authority's key signed the transaction *)
-Lemma exec_passport_authority t ms h sib W W' ix :
-  exec_data KPassport (IxPassport ix) (effective t ms) h sib W = Ok W' ->
-  match ix with
-  | PGrantAccess | PDenyAccess => exists c, is_pp_config W (nthk ms 0) c /\ In (pc_sentinel c) (tx_signers t)
-  | PConfigureProgram _ => exists c, is_pp_config W (nthk ms 0) c /\ In (pc_admin c) (tx_signers t)
-  | PSetAdmin _ => exists auth, data (get W (KProgData KPassport)) = DProgData (Some auth) /\ In auth (tx_signers t)
-  | PInitializeProgram | PRequestAccess _ => True
-  end.
-Proof.
-  intros H. apply exec_data_passport in H. destruct H as (H & _). destruct ix; cbn [pp_process] in H; try exact I.
-  - apply pp_set_admin_authority in H. destruct H as (auth & _ & Hd & _ & Hs). cbn in Hs. eauto using is_signer_effective.
-  - apply pp_configure_program_authority in H. destruct H as (c & Hc & _ & Hs). cbn in Hc, Hs. rewrite nthk_effective in Hc.
-    eauto using is_signer_effective.
-  - apply pp_grant_access_authority in H. destruct H as (c & Hc & _ & Hs). cbn in Hc, Hs. rewrite nthk_effective in Hc.
-    eauto using is_signer_effective.
-  - apply pp_deny_access_authority in H. destruct H as (c & Hc & _ & Hs). cbn in Hc, Hs. rewrite nthk_effective in Hc.
-    eauto using is_signer_effective.
-Qed.
+Theorem C17_configure_frame :
+  forall cx W s W',
+  pp_configure_program cx W s = Ok W' ->
+  exists c c', is_pp_config W (nthk (cx_metas cx) 0) c /\ apply_setting c s = Some c' /\
+    get W' (nthk (cx_metas cx) 0) = get W (nthk (cx_metas cx) 0) <| data := DPpConfig c' |> /\
+    (forall k, k <> nthk (cx_metas cx) 0 -> get W' k = get W k) /\ now W' = now W.
+Proof. exact pp_configure_program_frame. Qed.
+Check C17_configure_frame :
+  forall cx W s W',
+  pp_configure_program cx W s = Ok W' ->
+  exists c c', is_pp_config W (nthk (cx_metas cx) 0) c /\ apply_setting c s = Some c' /\
+    get W' (nthk (cx_metas cx) 0) = get W (nthk (cx_metas cx) 0) <| data := DPpConfig c' |> /\
+    (forall k, k <> nthk (cx_metas cx) 0 -> get W' k = get W k) /\ now W' = now W.
+Print Assumptions C17_configure_frame.
+
+(* fee < deposit (or no deposit configured yet) persists through ConfigureProgram, and through every passport instruction
+   for every KPassport-owned config of the world. *)
+Theorem C17_fee_lt_deposit :
+  forall cx W s W' c,
+  pp_configure_program cx W s = Ok W' -> is_pp_config W (nthk (cx_metas cx) 0) c -> cfg_ok c ->
+  exists c', is_pp_config W' (nthk (cx_metas cx) 0) c' /\ cfg_ok c'.
+Proof. exact fee_lt_deposit. Qed.
+Check C17_fee_lt_deposit :
+  forall cx W s W' c,
+  pp_configure_program cx W s = Ok W' -> is_pp_config W (nthk (cx_metas cx) 0) c -> cfg_ok c ->
+  exists c', is_pp_config W' (nthk (cx_metas cx) 0) c' /\ cfg_ok c'.
+Print Assumptions C17_fee_lt_deposit.
+
+
+Theorem C17_cfg_inv_preserved :
+  forall cx W ix W',
+ pp_cfg_inv W -> pp_process cx W ix = Ok W' -> pp_cfg_inv W'.
+Proof. exact pp_process_preserves_cfg_inv. Qed.
+Check C17_cfg_inv_preserved :
+  forall cx W ix W',
+ pp_cfg_inv W -> pp_process cx W ix = Ok W' -> pp_cfg_inv W'.
+Print Assumptions C17_cfg_inv_preserved.
+
+(* A request accepted under such a config holds more than the fee it remembers, so the saturating subtraction in GrantAccess
+   does not saturate for it. *)
+Theorem C17_accepted_request_can_pay_fee :
+  forall cx W mode W' c,
+  pp_request_access cx W mode = Ok W' -> is_pp_config W (nthk (cx_metas cx) 0) c -> cfg_ok c -> pc_deposit c < two64 ->
+  let rk := KPpRequest (access_mode_service mode) in
+  exists r, is_pp_request W' rk r /\ ar_fee r = pc_fee c /\ ar_fee r < pc_deposit c /\ ar_fee r < lamports (get W' rk) /\
+    lam_request c <= lamports (get W' rk) /\
+    (pc_deposit c + rent LEN_ACCESS_REQ < two64 -> rent LEN_ACCESS_REQ + pc_deposit c <= lamports (get W' rk)).
+Proof. exact accepted_request_can_pay_fee. Qed.
+Check C17_accepted_request_can_pay_fee :
+  forall cx W mode W' c,
+  pp_request_access cx W mode = Ok W' -> is_pp_config W (nthk (cx_metas cx) 0) c -> cfg_ok c -> pc_deposit c < two64 ->
+  let rk := KPpRequest (access_mode_service mode) in
+  exists r, is_pp_request W' rk r /\ ar_fee r = pc_fee c /\ ar_fee r < pc_deposit c /\ ar_fee r < lamports (get W' rk) /\
+    lam_request c <= lamports (get W' rk) /\
+    (pc_deposit c + rent LEN_ACCESS_REQ < two64 -> rent LEN_ACCESS_REQ + pc_deposit c <= lamports (get W' rk)).
+Print Assumptions C17_accepted_request_can_pay_fee.
+
+(* Life cycle: request, any number of successful reconfigurations (fee, deposit, flags, sentinel, limit), grant: the sentinel
+   in office is paid exactly the fee in force at request time and the requester gets back everything else. *)
+Theorem C17_request_reconfigure_grant :
+  forall W0 tr W1 mode msr c0 W2 tg W3 msg,
+  exec_tx W0 tr = (W1, true) -> pp_tx tr (PRequestAccess mode) msr ->
+  is_pp_config W0 (nthk msr 0) c0 -> cfg_ok c0 -> pc_deposit c0 < two64 ->
+  reconfigured W1 W2 ->
+  exec_tx W2 tg = (W3, true) -> pp_tx tg PGrantAccess msg -> nthk msg 2 = KPpRequest (access_mode_service mode) ->
+  let rk := KPpRequest (access_mode_service mode) in let payer := nthk msr 1 in let bal := lamports (get W1 rk) in
+  exists c2, is_pp_config W2 (nthk msg 0) c2 /\
+    let s := pc_sentinel c2 in
+    lam_request c0 <= bal /\ pc_fee c0 < pc_deposit c0 /\ pc_deposit c0 <= bal /\ nthk msg 3 = payer /\ In s (tx_signers tg) /\
+    get W3 rk = empty_acct /\
+    (s <> payer -> lamports (get W3 s) = lamports (get W2 s) + pc_fee c0 /\
+                   lamports (get W3 payer) = lamports (get W2 payer) + (bal - pc_fee c0)) /\
+    (s = payer -> lamports (get W3 s) = lamports (get W2 s) + bal).
+Proof. exact request_reconfigure_grant. Qed.
+Check C17_request_reconfigure_grant :
+  forall W0 tr W1 mode msr c0 W2 tg W3 msg,
+  exec_tx W0 tr = (W1, true) -> pp_tx tr (PRequestAccess mode) msr ->
+  is_pp_config W0 (nthk msr 0) c0 -> cfg_ok c0 -> pc_deposit c0 < two64 ->
+  reconfigured W1 W2 ->
+  exec_tx W2 tg = (W3, true) -> pp_tx tg PGrantAccess msg -> nthk msg 2 = KPpRequest (access_mode_service mode) ->
+  let rk := KPpRequest (access_mode_service mode) in let payer := nthk msr 1 in let bal := lamports (get W1 rk) in
+  exists c2, is_pp_config W2 (nthk msg 0) c2 /\
+    let s := pc_sentinel c2 in
+    lam_request c0 <= bal /\ pc_fee c0 < pc_deposit c0 /\ pc_deposit c0 <= bal /\ nthk msg 3 = payer /\ In s (tx_signers tg) /\
+    get W3 rk = empty_acct /\
+    (s <> payer -> lamports (get W3 s) = lamports (get W2 s) + pc_fee c0 /\
+                   lamports (get W3 payer) = lamports (get W2 payer) + (bal - pc_fee c0)) /\
+    (s = payer -> lamports (get W3 s) = lamports (get W2 s) + bal).
+Print Assumptions C17_request_reconfigure_grant.
+
+(* A failed transaction changes nothing. *)
+Theorem C17_tx_failed_unchanged :
+  forall W t W',
+ exec_tx W t = (W', false) -> W' = W.
+Proof. exact tx_failed_unchanged. Qed.
+Check C17_tx_failed_unchanged :
+  forall W t W',
+ exec_tx W t = (W', false) -> W' = W.
+Print Assumptions C17_tx_failed_unchanged.
+
+(* Record: without the runtime's balance check the processor alone would mint lamports on a forged request whose remembered
+   fee exceeds its balance (so the hypothesis of C17_grant_access_conserves cannot be dropped at processor level). *)
+Theorem C17_processor_level_conservation_needs_fee_le_balance :
+  exists W', pp_grant_access (top (grant_metas (KUser 88) uP)) W_forged = Ok W' /\
+    total W' [KPpRequest (KUser 88); uS; uP] = total W_forged [KPpRequest (KUser 88); uS; uP] + 90.
+Proof. exact pp_grant_access_conservation_without_fee_le_balance_refuted. Qed.
+Check C17_processor_level_conservation_needs_fee_le_balance :
+  exists W', pp_grant_access (top (grant_metas (KUser 88) uP)) W_forged = Ok W' /\
+    total W' [KPpRequest (KUser 88); uS; uP] = total W_forged [KPpRequest (KUser 88); uS; uP] + 90.
+Print Assumptions C17_processor_level_conservation_needs_fee_le_balance.
